@@ -17,11 +17,11 @@ theorem _root_.Taskpool.Tame.cur {p q : Pool} (h : Tame p q) {t : Nat} {s : Soft
   rw [hx] at hy; cases hy
   exact ⟨q.tasks[t], by simp [hlt], e.trans hs⟩
 
-theorem Cur.ok {cap : Cap} {p : Pool} {t : Nat} {s : SoftP} (hc : p.Cur t s) (hg : Good cap p) : OKs p.lost s := by
+theorem Cur.ok {cap : Cap} {L : Bool} {p : Pool} {t : Nat} {s : SoftP} (hc : p.Cur t s) (hg : Good cap L p) : OKs p.lost s := by
   obtain ⟨x, hx, hs⟩ := hc
   rw [← hs]; exact hg.life t x hx
 
-theorem Cur.nyr {cap : Cap} {p : Pool} {t : Nat} {s : SoftP} (hc : p.Cur t s) (hg : Good cap p)
+theorem Cur.nyr {cap : Cap} {L : Bool} {p : Pool} {t : Nat} {s : SoftP} (hc : p.Cur t s) (hg : Good cap L p)
     (hn : NYR s.phase = true) : s.released = false := by
   obtain ⟨x, hx, hs⟩ := hc
   have := hg.phase t x hx (by rw [← hs] at hn; exact hn)
@@ -41,12 +41,12 @@ theorem heldL_modify_at (ts : List PTask) (t : Nat) (f : PTask → PTask) (x : P
       omega
 
 /-- **the generic leaf**: an update of task `t` whose effect on the soft profile is `g`, keeping `released` -/
-theorem good_cur {cap : Cap} (p : Pool) (t : Nat) (f : PTask → PTask) (g : SoftP → SoftP)
-    (hfg : ∀ x, (f x).soft = g x.soft) (hg : Good cap p) (s : SoftP) (hc : p.Cur t s)
+theorem good_cur {cap : Cap} {L : Bool} (p : Pool) (t : Nat) (f : PTask → PTask) (g : SoftP → SoftP)
+    (hfg : ∀ x, (f x).soft = g x.soft) (hg : Good cap L p) (s : SoftP) (hc : p.Cur t s)
     (hrel : (g s).released = s.released)
     (hnyr : NYR (g s).phase = true → s.released = false)
     (hcan : t ∈ p.cancelledR → (g s).phase ≠ .created ∧ (g s).phase ≠ .inWorker)
-    (hok : OKs p.lost (g s)) : Good cap (p.modTask t f) ∧ (p.modTask t f).Cur t (g s) := by
+    (hok : OKs p.lost (g s)) : Good cap L (p.modTask t f) ∧ (p.modTask t f).Cur t (g s) := by
   obtain ⟨x, hx, hs⟩ := hc
   have hfx : (f x).soft = g s := by rw [hfg, hs]
   have hrelx : (f x).released = x.released := by
@@ -54,7 +54,7 @@ theorem good_cur {cap : Cap} (p : Pool) (t : Nat) (f : PTask → PTask) (g : Sof
     have h2 : x.released = s.released := by rw [← hs]; rfl
     rw [h1, hrel, h2]
   have hphx : (f x).phase = (g s).phase := by rw [← hfx]; rfl
-  refine ⟨⟨?_, ?_, ?_, hg.grp.of_eq rfl (by simp [modTask]), ?_⟩, ⟨f x, getElem?_modify_eq _ _ _ _ hx, hfx⟩⟩
+  refine ⟨⟨?_, ?_, ?_, hg.grp.of_eq rfl (by simp [modTask]), ?_, hg.ll, hg.al⟩, ⟨f x, getElem?_modify_eq _ _ _ _ hx, hfx⟩⟩
   · cases cap with
     | fin n =>
       obtain ⟨v, hv, hsum⟩ := hg.slot
@@ -133,12 +133,26 @@ theorem _root_.Taskpool.OKs.finished {lost : Bool} {s : SoftP} (h : OKs lost s) 
       · have : s.nCC = 1 := by omega
         rw [h2 this] at hw'; cases hw'
 
-theorem good_setLost {cap : Cap} (p : Pool) (hg : Good cap p) : Good cap ({ p with lost := true } : Pool) :=
-  ⟨hg.slot, hg.phase, hg.reg.setLost, hg.grp.of_eq rfl rfl, fun t tk h => (hg.life t tk h).toLost⟩
+theorem good_setLost {cap : Cap} (p : Pool) (hg : Good cap true p) : Good cap true ({ p with lost := true } : Pool) :=
+  ⟨hg.slot, hg.phase, hg.reg.setLost, hg.grp.of_eq rfl rfl, fun t tk h => (hg.life t tk h).toLost,
+    fun h => Bool.noConfusion h, fun h => Bool.noConfusion h⟩
+
+/-- in the strict variant the registries are complete, so `_task_ending` finds the id (no `KeyError`) -/
+theorem strict_moveToEnded {cap : Cap} (p : Pool) (t : Nat) (hg : Good cap false p) (s : SoftP) (hc : p.Cur t s)
+    (hrel : s.released = false) : p.moveToEnded t ≠ none := by
+  obtain ⟨x, hx, hs⟩ := hc
+  have hr : x.released = false := by rw [← hs] at hrel; exact hrel
+  have := hg.reg.cpl (hg.ll rfl) t x hx hr
+  unfold moveToEnded
+  rcases this with h | h
+  · simp [h]
+  · by_cases h' : t ∈ p.running
+    · simp [h']
+    · simp [h', h]
 
 /-- the asyncio Task of pool task `t` completes -/
-theorem good_completeTask {cap : Cap} (p : Pool) (t : Nat) (o : Outcome) (hg : Good cap p) (s : SoftP) (hc : p.Cur t s)
-    (hfin : OKs p.lost (s.setPhase .finished)) : Good cap (p.completeTask t o) := by
+theorem good_completeTask {cap : Cap} {L : Bool} (p : Pool) (t : Nat) (o : Outcome) (hg : Good cap L p) (s : SoftP) (hc : p.Cur t s)
+    (hfin : OKs p.lost (s.setPhase .finished)) : Good cap L (p.completeTask t o) := by
   unfold completeTask
   obtain ⟨x, hx, hs⟩ := hc
   simp only [hx]
@@ -146,15 +160,15 @@ theorem good_completeTask {cap : Cap} (p : Pool) (t : Nat) (o : Outcome) (hg : G
   exact (good_cur p t _ (fun s => s.setPhase .finished) (fun _ => rfl) hg s ⟨x, hx, hs⟩ rfl
     (fun h => by simp [SoftP.setPhase, NYR] at h) (fun _ => by simp [SoftP.setPhase]) hfin).1
 
-theorem good_finishTask {cap : Cap} (p : Pool) (t : Nat) (hg : Good cap p) (s : SoftP) (hc : p.Cur t s)
-    (hfin : OKs p.lost (s.setPhase .finished)) : Good cap (p.finishTask t) := by
+theorem good_finishTask {cap : Cap} {L : Bool} (p : Pool) (t : Nat) (hg : Good cap L p) (s : SoftP) (hc : p.Cur t s)
+    (hfin : OKs p.lost (s.setPhase .finished)) : Good cap L (p.finishTask t) := by
   unfold finishTask
   obtain ⟨x, hx, hs⟩ := hc
   simp only [hx]
   exact good_completeTask p t _ hg s ⟨x, hx, hs⟩ hfin
 
-theorem good_keyErrorFinish {cap : Cap} (p : Pool) (t) (hg : Good cap p) (s : SoftP) (hc : p.Cur t s)
-    (hph : s.phase = .wrapUp) : Good cap (p.keyErrorFinish t) := by
+theorem good_keyErrorFinish {cap : Cap} (p : Pool) (t) (hg : Good cap true p) (s : SoftP) (hc : p.Cur t s)
+    (hph : s.phase = .wrapUp) : Good cap true (p.keyErrorFinish t) := by
   unfold keyErrorFinish
   have hg1 := good_setLost p hg
   have hc1 : ({ p with lost := true } : Pool).Cur t s := hc
@@ -174,9 +188,9 @@ theorem good_cbBegin_lost (p : Pool) (t : Nat) (tk : PTask) (isEnd : Bool) : (p.
   exact (Tame.trans (tame_logEv (p.modTask t (cbCount isEnd)) _) (tame_runHooks _ _ _)).lost
 
 /-- entering a callback: the ghost counter goes up by one, then the log entry and the callback's user code -/
-theorem good_cbBegin {cap : Cap} (p : Pool) (t : Nat) (tk : PTask) (isEnd : Bool) (hg : Good cap p) (s : SoftP)
+theorem good_cbBegin {cap : Cap} {L : Bool} (p : Pool) (t : Nat) (tk : PTask) (isEnd : Bool) (hg : Good cap L p) (s : SoftP)
     (hc : p.Cur t s) (hnot : s.phase = .wrapUp) (hok : OKs p.lost (s.incCb isEnd)) :
-    Good cap (p.cbBegin t tk isEnd) ∧ (p.cbBegin t tk isEnd).Cur t (s.incCb isEnd) := by
+    Good cap L (p.cbBegin t tk isEnd) ∧ (p.cbBegin t tk isEnd).Cur t (s.incCb isEnd) := by
   unfold cbBegin
   simp only
   have h1 := good_cur p t (cbCount isEnd) (fun s => s.incCb isEnd)
@@ -194,11 +208,11 @@ theorem good_cbBegin {cap : Cap} (p : Pool) (t : Nat) (tk : PTask) (isEnd : Bool
   · exact Tame.trans (tame_logEv _ _) (tame_runHooks _ _ _)
 
 /-- suspending on a harness future in phase `ph` -/
-theorem good_suspend {cap : Cap} (p : Pool) (t : Nat) (ph : Phase) (hg : Good cap p) (s : SoftP) (hc : p.Cur t s)
+theorem good_suspend {cap : Cap} {L : Bool} (p : Pool) (t : Nat) (ph : Phase) (hg : Good cap L p) (s : SoftP) (hc : p.Cur t s)
     (hnyr : NYR ph = true → s.released = false)
     (hcan : t ∈ p.cancelledR → ph ≠ .created ∧ ph ≠ .inWorker)
     (hok : OKs p.lost (s.setPhase ph)) :
-    Good cap (p.suspendTask t ph) ∧ (p.suspendTask t ph).Cur t (s.setPhase ph) := by
+    Good cap L (p.suspendTask t ph) ∧ (p.suspendTask t ph).Cur t (s.setPhase ph) := by
   unfold suspendTask
   obtain ⟨x, hx, hs⟩ := hc
   simp only [hx]
@@ -246,10 +260,10 @@ theorem _root_.Taskpool.OKs.toEndCb {lost : Bool} {s : SoftP} (h : OKs lost s) (
   · intro hc; simp [SoftP.setPhase] at hc
 
 /-- the end callback stage of `_task_ending`, for a task that has just been filed as ended and released -/
-theorem good_endCallback {cap : Cap} (p : Pool) (t : Nat) (tk : PTask) (hg : Good cap p) (s : SoftP) (hc : p.Cur t s)
+theorem good_endCallback {cap : Cap} {L : Bool} (p : Pool) (t : Nat) (tk : PTask) (hg : Good cap L p) (s : SoftP) (hc : p.Cur t s)
     (hr : s.released = true) (hph : s.phase = .wrapUp) (hne : s.nEC = 0)
     (hA : s.wasCancelled = true → s.cancelCb ≠ .none → s.nCC = 1) (hspec : tk.endCb = s.endCb) :
-    Good cap (p.endCallback t tk) := by
+    Good cap L (p.endCallback t tk) := by
   unfold endCallback
   simp only
   have t0 := tame_releaseMapSlot p t tk
@@ -300,9 +314,9 @@ theorem good_endCallback {cap : Cap} (p : Pool) (t : Nat) (tk : PTask) (hg : Goo
     exact hinc.toEndCb hr (by show s.nEC + 1 = 1; omega) hecb
 
 /-- the id is filed as ended, the slot is given back and the task marked released — one atomic leaf -/
-theorem good_moveRelease {cap : Cap} (p p1 : Pool) (t : Nat) (hg : Good cap p) (s : SoftP) (hc : p.Cur t s)
+theorem good_moveRelease {cap : Cap} {L : Bool} (p p1 : Pool) (t : Nat) (hg : Good cap L p) (s : SoftP) (hc : p.Cur t s)
     (he : Ending s) (hm : p.moveToEnded t = some p1) :
-    Good cap ((p1.releasePool).modTask t fun k => { k with released := true }) ∧
+    Good cap L ((p1.releasePool).modTask t fun k => { k with released := true }) ∧
     ((p1.releasePool).modTask t fun k => { k with released := true }).Cur t s.release := by
   obtain ⟨tk, a, hs⟩ := hc
   have b : tk.released = false := by have := he.rel; rw [← hs] at this; exact this
@@ -319,7 +333,11 @@ theorem good_moveRelease {cap : Cap} (p p1 : Pool) (t : Nat) (hg : Good cap p) (
       releasePool_groups, moveToEnded_groups p p1 t hm]
   have hget : ((p1.releasePool).modTask t fun k => { k with released := true }).tasks[t]? = some { tk with released := true } := by
     simp only [modTask_tasks, h3, ht1]; exact getElem?_modify_eq _ _ _ _ a
-  refine ⟨⟨?_, ?_, ?_, hg.grp.of_eq hgr (by simp [modTask, h3, ht1]), ?_⟩, ⟨_, hget, by rw [← hs]; rfl⟩⟩
+  have hap : ((p1.releasePool).modTask t fun k => { k with released := true }).apis = p.apis := by
+    rw [show ((p1.releasePool).modTask t fun k => { k with released := true }).apis = p1.releasePool.apis from rfl,
+      releasePool_apis, moveToEnded_apis p p1 t hm]
+  refine ⟨⟨?_, ?_, ?_, hg.grp.of_eq hgr (by simp [modTask, h3, ht1]), ?_, fun h => by rw [hlost]; exact hg.ll h,
+    fun h => by rw [hap]; exact hg.al h⟩, ⟨_, hget, by rw [← hs]; rfl⟩⟩
   · cases cap with
     | fin n =>
       obtain ⟨v, hv, hsum⟩ := hg.slot
@@ -354,13 +372,16 @@ theorem good_moveRelease {cap : Cap} (p p1 : Pool) (t : Nat) (hg : Good cap p) (
     · exact hg.life i x hx
 
 /-- `_task_ending` for a task that is ready to end -/
-theorem good_taskEnding {cap : Cap} (p : Pool) (t : Nat) (hg : Good cap p) (s : SoftP) (hc : p.Cur t s)
-    (he : Ending s) : Good cap (p.taskEnding t) := by
+theorem good_taskEnding {cap : Cap} {L : Bool} (p : Pool) (t : Nat) (hg : Good cap L p) (s : SoftP) (hc : p.Cur t s)
+    (he : Ending s) : Good cap L (p.taskEnding t) := by
   unfold taskEnding
   obtain ⟨x, hx, hs⟩ := hc
   simp only [hx]
   split
-  · exact good_keyErrorFinish p t hg s ⟨x, hx, hs⟩ he.ph
+  · rename_i hm
+    cases L with
+    | false => exact absurd hm (strict_moveToEnded p t hg s ⟨x, hx, hs⟩ he.rel)
+    | true => exact good_keyErrorFinish p t hg s ⟨x, hx, hs⟩ he.ph
   · rename_i p1 hm
     unfold endingTail
     obtain ⟨hg1, hc1⟩ := good_moveRelease p p1 t hg s ⟨x, hx, hs⟩ he hm
@@ -404,9 +425,9 @@ theorem _root_.Taskpool.OKs.toCancelCb {lost : Bool} {s : SoftP} (h : OKs lost s
   · intro hc; simp [SoftP.setPhase] at hc
 
 /-- the cancel callback, then `_task_ending` unless the wrapper is suspended inside a coroutine callback -/
-theorem good_cancelCallback {cap : Cap} (p : Pool) (t : Nat) (tk : PTask) (hg : Good cap p) (s : SoftP) (hc : p.Cur t s)
+theorem good_cancelCallback {cap : Cap} {L : Bool} (p : Pool) (t : Nat) (tk : PTask) (hg : Good cap L p) (s : SoftP) (hc : p.Cur t s)
     (hph : s.phase = .wrapUp) (hrel : s.released = false) (hn : s.nCC = 0) (hw : s.wasCancelled = true)
-    (hspec : tk.cancelCb = s.cancelCb) : Good cap (p.cancelCallback t tk) := by
+    (hspec : tk.cancelCb = s.cancelCb) : Good cap L (p.cancelCallback t tk) := by
   unfold cancelCallback
   simp only
   have hok := hc.ok hg
@@ -442,17 +463,17 @@ theorem good_cancelCallback {cap : Cap} (p : Pool) (t : Nat) (tk : PTask) (hg : 
     exact hinc.toCancelCb (by show s.nCC + 1 = 1; omega) hccb hrel
 
 /-- `except CancelledError: await self._task_cancellation(...)`, then the `finally` -/
-theorem good_taskCancellation {cap : Cap} (p : Pool) (t : Nat) (tk : PTask) (hg : Good cap p) (s : SoftP) (hc : p.Cur t s)
+theorem good_taskCancellation {cap : Cap} {L : Bool} (p : Pool) (t : Nat) (tk : PTask) (hg : Good cap L p) (s : SoftP) (hc : p.Cur t s)
     (hph : s.phase = .wrapUp) (hrel : s.released = false) (hn : s.nCC = 0) (hwf : s.wasCancelled = false)
-    (hspec : tk.cancelCb = s.cancelCb) : Good cap (p.taskCancellation t tk) := by
+    (hspec : tk.cancelCb = s.cancelCb) (hnc : t ∉ p.cancelledR) : Good cap L (p.taskCancellation t tk) := by
   unfold taskCancellation
   have hok := hc.ok hg
   split
   · rename_i hrun
     have ht : t ∈ p.running := by simpa using hrun
     -- the registry move
-    have hg1 : Good cap ({ p with running := p.running.erase t, cancelledR := p.cancelledR ++ [t] } : Pool) := by
-      refine ⟨hg.slot, hg.phase, hg.reg.regCancel t ht ?_, hg.grp.of_eq rfl rfl, hg.life⟩
+    have hg1 : Good cap L ({ p with running := p.running.erase t, cancelledR := p.cancelledR ++ [t] } : Pool) := by
+      refine ⟨hg.slot, hg.phase, hg.reg.regCancel t ht ?_, hg.grp.of_eq rfl rfl, hg.life, hg.ll, hg.al⟩
       intro tk' h
       obtain ⟨x, hx, hs⟩ := hc
       rw [hx] at h; cases h
@@ -463,12 +484,21 @@ theorem good_taskCancellation {cap : Cap} (p : Pool) (t : Nat) (tk : PTask) (hg 
       hg1 s hc1 rfl (fun h => by have : NYR s.phase = true := h; rw [hph] at this; simp [NYR] at this)
       (fun _ => by show s.phase ≠ _ ∧ s.phase ≠ _; rw [hph]; simp) (hok.markCancelled hph hrel)
     exact good_cancelCallback _ t tk hg2 _ hc2 hph hrel hn rfl hspec
-  · have hg1 := good_setLost p hg
-    have hc1 : ({ p with lost := true } : Pool).Cur t s := hc
-    have t1 := tame_modTask ({ p with lost := true } : Pool) t (fun k => { k with pendingExc := some .keyError })
-    refine good_taskEnding _ t (t1.good hg1) s (t1.cur hc1) ⟨hrel, hph, ?_⟩
-    intro hw
-    rw [hwf] at hw; cases hw
+  · rename_i hrun
+    cases L with
+    | false =>
+      obtain ⟨x, hx, hs⟩ := hc
+      have hr : x.released = false := by rw [← hs] at hrel; exact hrel
+      rcases hg.reg.cpl (hg.ll rfl) t x hx hr with h | h
+      · exact absurd (by simpa using h) hrun
+      · exact absurd h hnc
+    | true =>
+      have hg1 := good_setLost p hg
+      have hc1 : ({ p with lost := true } : Pool).Cur t s := hc
+      have t1 := tame_modTask ({ p with lost := true } : Pool) t (fun k => { k with pendingExc := some .keyError })
+      refine good_taskEnding _ t (t1.good hg1) s (t1.cur hc1) ⟨hrel, hph, ?_⟩
+      intro hw
+      rw [hwf] at hw; cases hw
 
 /-! ### the phases of the wrapper -/
 
@@ -485,20 +515,20 @@ structure InWork (s : SoftP) : Prop where
   ncc : s.nCC = 0
   wc : s.wasCancelled = false
 
-theorem inWork_of {cap : Cap} {p : Pool} {t : Nat} {s : SoftP} (hc : p.Cur t s) (hg : Good cap p)
+theorem inWork_of {cap : Cap} {L : Bool} {p : Pool} {t : Nat} {s : SoftP} (hc : p.Cur t s) (hg : Good cap L p)
     (hph : s.phase = .created ∨ s.phase = .inWorker) : InWork s :=
   ⟨hc.nyr hg (by rcases hph with h | h <;> rw [h] <;> rfl), ((hc.ok hg).c0 hph).1, ((hc.ok hg).c0 hph).2⟩
 
 /-- enter `wrapUp` (the worker is over), keeping everything else -/
-theorem good_toWrapUp {cap : Cap} (p : Pool) (t : Nat) (f : PTask → PTask) (hf : ∀ x, (f x).soft = x.soft.setPhase .wrapUp)
-    (hg : Good cap p) (s : SoftP) (hc : p.Cur t s) :
-    Good cap (p.modTask t f) ∧ (p.modTask t f).Cur t (s.setPhase .wrapUp) :=
+theorem good_toWrapUp {cap : Cap} {L : Bool} (p : Pool) (t : Nat) (f : PTask → PTask) (hf : ∀ x, (f x).soft = x.soft.setPhase .wrapUp)
+    (hg : Good cap L p) (s : SoftP) (hc : p.Cur t s) :
+    Good cap L (p.modTask t f) ∧ (p.modTask t f).Cur t (s.setPhase .wrapUp) :=
   good_cur p t f (fun s => s.setPhase .wrapUp) hf hg s hc rfl (fun h => by simp [SoftP.setPhase, NYR] at h)
     (fun _ => by simp [SoftP.setPhase]) ((hc.ok hg).setPhase_free .wrapUp (Or.inl rfl))
 
 /-- the worker coroutine is over (normally or with an exception): `wrapUp`, then `_task_ending` -/
-theorem good_afterWorker {cap : Cap} (p : Pool) (t : Nat) (e : Option Err) (hg : Good cap p) (s : SoftP) (hc : p.Cur t s)
-    (hw : InWork s) : Good cap (p.afterWorker t e) := by
+theorem good_afterWorker {cap : Cap} {L : Bool} (p : Pool) (t : Nat) (e : Option Err) (hg : Good cap L p) (s : SoftP) (hc : p.Cur t s)
+    (hw : InWork s) : Good cap L (p.afterWorker t e) := by
   unfold afterWorker
   split
   · have t0 := tame_logEv p (Ev.returned t)
@@ -511,15 +541,15 @@ theorem good_afterWorker {cap : Cap} (p : Pool) (t : Nat) (e : Option Err) (hg :
       (fun _ => rfl) (t0.good hg) s (t0.cur hc)
     exact good_taskEnding _ t hg1 _ hc1 ⟨hw.rel, rfl, fun h => by rw [show (s.setPhase .wrapUp).wasCancelled = s.wasCancelled from rfl, hw.wc] at h; cases h⟩
 
-theorem good_stepCreated {cap : Cap} (p : Pool) (t : Nat) (tk : PTask) (hg : Good cap p) (s : SoftP) (hc : p.Cur t s)
+theorem good_stepCreated {cap : Cap} {L : Bool} (p : Pool) (t : Nat) (tk : PTask) (hg : Good cap L p) (s : SoftP) (hc : p.Cur t s)
     (hph : s.phase = .created) (hnc : t ∉ p.cancelledR) (hspec : tk.cancelCb = s.cancelCb) :
-    Good cap (p.stepCreated t tk) := by
+    Good cap L (p.stepCreated t tk) := by
   have hw := inWork_of hc hg (Or.inl hph)
   unfold stepCreated
   split
   · obtain ⟨hg1, hc1⟩ := good_toWrapUp p t (fun k => { k with phase := .wrapUp, unstarted := false, cancelledEarly := false })
       (fun _ => rfl) hg s hc
-    exact good_taskCancellation _ t tk hg1 _ hc1 rfl hw.rel hw.ncc hw.wc hspec
+    exact good_taskCancellation _ t tk hg1 _ hc1 rfl hw.rel hw.ncc hw.wc hspec hnc
   · simp only
     have t0 := tame_logEv p (Ev.started t tk.arg)
     obtain ⟨hg1, hc1⟩ := good_cur (p.logEv (Ev.started t tk.arg)) t
@@ -549,8 +579,9 @@ theorem _root_.Taskpool.OKs.sawCancel {lost : Bool} {s : SoftP} (h : OKs lost s)
   · intro hc; simp [SoftP.sawCancel] at hc
 
 /-- the worker observes a `CancelledError` at its suspension point — for the first and only time -/
-theorem good_workerCancelled {cap : Cap} (p : Pool) (t : Nat) (tk : PTask) (hg : Good cap p) (s : SoftP) (hc : p.Cur t s)
-    (hw : InWork s) (hsaw : s.nSaw = 0) (hspec : tk.cancelCb = s.cancelCb) : Good cap (p.workerCancelled t tk) := by
+theorem good_workerCancelled {cap : Cap} {L : Bool} (p : Pool) (t : Nat) (tk : PTask) (hg : Good cap L p) (s : SoftP) (hc : p.Cur t s)
+    (hw : InWork s) (hsaw : s.nSaw = 0) (hspec : tk.cancelCb = s.cancelCb) (hnc : t ∉ p.cancelledR) :
+    Good cap L (p.workerCancelled t tk) := by
   unfold workerCancelled
   simp only
   have t0 := tame_logEv p (Ev.sawCancel t)
@@ -562,27 +593,32 @@ theorem good_workerCancelled {cap : Cap} (p : Pool) (t : Nat) (tk : PTask) (hg :
     ((hc0.ok hg0).sawCancel hsaw)
   split
   · exact good_afterWorker _ t _ hg1 _ hc1 ⟨hw.rel, hw.ncc, hw.wc⟩
-  · exact good_taskCancellation _ t tk hg1 _ hc1 rfl hw.rel hw.ncc hw.wc hspec
+  · exact good_taskCancellation _ t tk hg1 _ hc1 rfl hw.rel hw.ncc hw.wc hspec hnc
 
-theorem good_stepInWorker {cap : Cap} (p : Pool) (t : Nat) (tk : PTask) (hg : Good cap p) (s : SoftP) (hc : p.Cur t s)
-    (hph : s.phase = .inWorker) (hspec : tk.cancelCb = s.cancelCb) : Good cap (p.stepInWorker t tk) := by
+theorem good_stepInWorker {cap : Cap} {L : Bool} (p : Pool) (t : Nat) (tk : PTask) (hg : Good cap L p) (s : SoftP) (hc : p.Cur t s)
+    (hph : s.phase = .inWorker) (hspec : tk.cancelCb = s.cancelCb) : Good cap L (p.stepInWorker t tk) := by
   have hw := inWork_of hc hg (Or.inr hph)
   unfold stepInWorker
   split
   · have t0 := tame_modTask p t (fun k => { k with mustCancel := false })
-    exact good_workerCancelled _ t tk (t0.good hg) s (t0.cur hc) hw ((hc.ok hg).s0 (Or.inr hph)) hspec
+    refine good_workerCancelled _ t tk (t0.good hg) s (t0.cur hc) hw ((hc.ok hg).s0 (Or.inr hph)) hspec ?_
+    intro hmem
+    obtain ⟨x, hx, hs⟩ := hc
+    obtain ⟨y, hy, _, _, hni⟩ := hg.reg.can t hmem
+    rw [hx] at hy; cases hy
+    exact hni (by rw [← hs] at hph; exact hph)
   · split
     · exact good_afterWorker p t _ hg s hc hw
     · exact good_afterWorker p t _ hg s hc hw
     · exact hg
 
-theorem good_stepInCancelCb {cap : Cap} (p : Pool) (t : Nat) (tk : PTask) (hg : Good cap p) (s : SoftP) (hc : p.Cur t s)
-    (hph : s.phase = .inCancelCb) : Good cap (p.stepInCancelCb t tk) := by
+theorem good_stepInCancelCb {cap : Cap} {L : Bool} (p : Pool) (t : Nat) (tk : PTask) (hg : Good cap L p) (s : SoftP) (hc : p.Cur t s)
+    (hph : s.phase = .inCancelCb) : Good cap L (p.stepInCancelCb t tk) := by
   have hok := hc.ok hg
   have hrel : s.released = false := hc.nyr hg (by rw [hph]; rfl)
   have hcc := hok.cc hph
   have fin : ∀ (q : Pool) (f : PTask → PTask), (∀ x, (f x).soft = x.soft.setPhase .wrapUp) → Tame p q →
-      Good cap ((q.modTask t f).taskEnding t) := by
+      Good cap L ((q.modTask t f).taskEnding t) := by
     intro q f hf tq
     obtain ⟨hg1, hc1⟩ := good_toWrapUp q t f hf (tq.good hg) s (tq.cur hc)
     exact good_taskEnding _ t hg1 _ hc1 ⟨hrel, rfl, fun _ _ => hcc.1⟩
@@ -593,8 +629,8 @@ theorem good_stepInCancelCb {cap : Cap} (p : Pool) (t : Nat) (tk : PTask) (hg : 
   · exact fin _ _ (fun _ => rfl) (tame_logEv p _)
   · exact hg
 
-theorem good_stepInEndCb {cap : Cap} (p : Pool) (t : Nat) (tk : PTask) (hg : Good cap p) (s : SoftP) (hc : p.Cur t s)
-    (hph : s.phase = .inEndCb) : Good cap (p.stepInEndCb t tk) := by
+theorem good_stepInEndCb {cap : Cap} {L : Bool} (p : Pool) (t : Nat) (tk : PTask) (hg : Good cap L p) (s : SoftP) (hc : p.Cur t s)
+    (hph : s.phase = .inEndCb) : Good cap L (p.stepInEndCb t tk) := by
   have hok := hc.ok hg
   obtain ⟨hne, hecb, hrel⟩ := hok.ec hph
   have hfin : OKs p.lost (s.setPhase .finished) :=
@@ -613,7 +649,7 @@ theorem good_stepInEndCb {cap : Cap} (p : Pool) (t : Nat) (tk : PTask) (hg : Goo
   · exact hg
 
 /-- one step of any pool task preserves all the invariants -/
-theorem good_stepTask {cap : Cap} (p : Pool) (t : Nat) (hg : Good cap p) : Good cap (p.stepTask t) := by
+theorem good_stepTask {cap : Cap} {L : Bool} (p : Pool) (t : Nat) (hg : Good cap L p) : Good cap L (p.stepTask t) := by
   unfold stepTask
   split
   · exact hg
